@@ -822,6 +822,8 @@ pub fn run_scheduled(
                 }
             }
             out.deadlock = Some(blocked);
+            // the log ends here: what the aborted threads release while unwinding is not part of the execution
+            out.events = w.glog.take().unwrap_or_default();
             w.sched.as_mut().unwrap().abort = true;
             drop(w);
             CV.notify_all();
@@ -856,7 +858,10 @@ pub fn run_scheduled(
         };
     }
     let mut w = world();
-    out.events = w.glog.take().unwrap_or_default();
+    if out.deadlock.is_none() {
+        out.events = w.glog.take().unwrap_or_default();
+    }
+    w.glog = None;
     w.sched = None;
     out
 }
